@@ -49,7 +49,7 @@ FORBIDDEN = re.compile(r"\bsorry\b|\badmit\b|^\s*axiom\s|native_decide|bv_decide
 
 def to_jsonable(o):
     if isinstance(o, dict):
-        return {str(k): to_jsonable(v) for k, v in o.items()}
+        return {str(k): to_jsonable(v) for k, v in o.items() if not str(k).startswith("_")}
     if isinstance(o, (list, tuple)):
         return [to_jsonable(v) for v in o]
     if isinstance(o, np.ndarray):
@@ -66,7 +66,9 @@ def to_jsonable(o):
         return bool(o)
     if isinstance(o, complex):
         return {"__z__": [o.real, o.imag]}
-    return o
+    if o is None or isinstance(o, (bool, int, float, str)):
+        return o
+    return repr(o)
 
 
 def from_jsonable(o):
